@@ -382,6 +382,7 @@ def map_rules(chk, program):
     # ---- MAP-REPLACE + attach on the claim path
     fn2, ex2 = stages['_call_decode_function']
     src2 = ('param', ex2.params[3])
+    from .gen import canon as _canon
     stores = [e for e in ex2.events if e[0] == 'store' and e[2] == ('sub', MAP, src2)]
     chk.check(len(stores) == 1, 'MAP-REPLACE', 'one-store', file=DEC, line=fn2.lineno, func='_call_decode_function', expected='exactly one store into the source map', found=len(stores))
     adds = []
@@ -401,14 +402,14 @@ def map_rules(chk, program):
         ok_new = data_int is not None and new[2][0] == msgterm and msgterm[0] == 'call' and msgterm[2] == (data_int,)
         chk.check(ok_new and bool(claim_conds), 'MAP-REPLACE', 'new-identity-from-this-claim', file=DEC, line=st[-1], func='_call_decode_function',
                   expected='under PGN == claim: map[src] = IsoName(<this decoded message>, <its own payload integer>)', found=show(new)[:160])
-        old = ('call', ('attr', MAP, 'get'), (src2, NONE), ())
+        old = ('call', ('attr', MAP, 'get'), (src2,), ())
         reuse = ('bool', 'and', (('cmp', 'is not', old, NONE), ('cmp', '==', ('attr', old, 'name'), data_int)))
-        reuse_ok = sym.mk_not(reuse) in g
+        reuse_ok = sym.mk_not(reuse) in [_canon(x) for x in g]
         chk.check(reuse_ok, 'MAP-REPLACE', 'reuse-only-when-NAME-unchanged', file=DEC, line=st[-1], func='_call_decode_function',
                   expected='the stored identity is kept only if it exists and its NAME equals the whole payload integer; otherwise replaced', found=[show(x)[:120] for x in g[-1:]])
         ident = adds[0][2][2][4] if len(adds[0][2][2]) > 4 else None
-        leaves = _ite_leaves(ident) if ident is not None else []
-        okat = ident is not None and set(leaves) == {old, new, ('param', ex2.params[7])}
+        leaves = [_canon(x) for x in _ite_leaves(ident)] if ident is not None else []
+        okat = ident is not None and set(leaves) == {old, _canon(new), ('param', ex2.params[7])}
         chk.check(okat, 'MAP-ATTACH', 'add_data::identity', file=DEC, line=adds[0][-1], func='_call_decode_function',
                   expected='identity attached = the map entry for this source (claim: reused or new entry; otherwise the looked-up one)', found=show(ident)[:200] if ident else None)
         a = adds[0][2][2]
